@@ -26,6 +26,8 @@ MUTS.append(("S9 seeded C09-f: execute_fields_serially loop testing unwrap_value
 MUTS.append(("R2 revert of 0b6c9fe (serial execution without recursion)", None, "-R:/verif/fixes/C09-02-serial-fields-without-recursion.patch", None, ["C09"]))
 MUTS.append(("R3 revert of 75abc69 (list iterable raising part-way)", None, "-R:/verif/fixes/C09-03-list-iterable-raising.patch", None, ["C09", "C08"]))
 MUTS.append(("S10 seeded C09-g: nested test without NonNull unwrapping", None, "/verif/seeded/C09-g/patch.diff", None, ["C09"]))
+MUTS.append(("S11 seeded C08-i: AsyncIORuntime.gather_values pre-scans its (one-shot) iterable", None, "/verif/seeded/C08-i/patch.diff", None, ["C08"]))
+MUTS.append(("S12 seeded C09-i: _iterate_fields drops hidden meta fields through a set difference", None, "/verif/seeded/C09-i/patch.diff", None, ["C09", "C08"]))
 MUTS.append(("S2 seeded C09-a: execute() dispatches on root_type identity", None, "/verif/seeded/C09-a/patch.diff", None, ["C09"]))
 only = sys.argv[1:]
 env = dict(os.environ, PYGQL_REPO=WT)
